@@ -12,16 +12,18 @@ hangs; when it accepts, the model (which accepts only texts derivable from the g
 declared bound constants, reading every character) accepts too.  Correspondence: same accept/reject decision,
 and on acceptance `spec_print()` equals the names computed from the model's parse tree.
 """
-from .. import common, formula as F, front as FR
+from .. import common, formula as F, front as FR, disc
 from ..engine import Violation, Ctx
 
 RULE = ("valid: random formulas (depth<=4) under random aliases/separators/parenthesisation, with or without ';' and assertion head, "
         "intervals with units and declared constants; mutant: 1 edit of a valid text (8 edit kinds); soup: 1-12 random tokens. "
         "distinct by text; non-trivial: every text counts once (the observable is the outcome class and the printed AST).")
-EXPLANATION = ("theorems (Lean): the lexer and parser are total functions (termination accepted by the kernel); C14_lex_covers (the token "
-               "stream accounts for every character: no character is skipped except white space and comments); C14_parse_sound "
-               "(a successful parse derives the token stream in the grammar relation `Derives`); C14_sideconds (accepted intervals "
-               "satisfy 0<=begin<=end and use declared constants). Correspondence: real parse() vs the model on valid texts, "
+EXPLANATION = ("theorems (Lean): the lexer and parser are total functions (termination accepted by the kernel); C14_lexStep_skip / "
+               "C14_lex_error_propagates (the lexer skips white space and comments only; any other unrecognised character is an error "
+               "that reaches the caller); C14_parseExpr_sound / C14_parseAssertion_sound / C14_asserts_consume_all / C14_spec_sound "
+               "(a successful parse derives, in the inductive grammar relation `Derives`, exactly the tokens consumed; the assertion "
+               "list consumes every token after the declarations and is non-empty); C14_sideconds (accepted intervals satisfy "
+               "0<=begin<=end as durations and use declared constants). Correspondence: real parse() vs the model on valid texts, "
                "single-edit mutants and token soup.")
 ASSUMPTIONS = ["partial: termination of the real ANTLR parser is only observed up to a wall-clock limit per text",
                "module imports, ROS annotations and typed object variables are not modelled and not generated"]
@@ -124,6 +126,18 @@ def replay(ctx, obj):
 
 
 def run(ctx):
+    for obj in disc.corpus("C14"):
+        consts = [tuple(c) for c in obj.get("consts", [])]
+        m, = FR.model_parse([obj["text"]], consts=consts)
+        ctx.evaluations += 1
+        ctx.count("stream:corpus")
+        v, d = check_text(ctx, obj["text"], consts, "corpus", m)
+        if v is not None:
+            ctx.violations.append(v)
+        if d is not None:
+            ctx.diffs.append(d)
+    if ctx.violations:
+        return
     explore(ctx, ctx.subrng("front"), ctx.budget(250, 4000))
 
 
